@@ -23,6 +23,7 @@ PROPERTY = "C06"
 RTOL = 1e-6
 
 RADIALS = [("0.5", ["0.5"]), ("[0.2,0.3]", ["0.2", "0.3"]), ("[0.1, 0.3, 0.4]", ["0.1", "0.3", "0.4"])]
+CLOSE_RADII = [("[0.2, 0.2001, 0.5]", ["0.2", "0.2001", "0.5"]), ("[0.01, 5]", ["0.01", "5"])]
 DEFAULT_RADIAL = ("linspace(0.2, 0.4, 10)", [str(F(2, 10) + F(2, 90) * i) for i in range(10)])
 
 
@@ -224,6 +225,9 @@ def cases(tier):
                 out.append({"alg": alg, "N": N, "t": tname, "radii_nm": tv, "qhull_crosscheck": tname == "[0.2,0.3]"})
         for N in NsD:
             out.append({"alg": alg, "N": N, "t": DEFAULT_RADIAL[0], "radii_nm": DEFAULT_RADIAL[1]})
+        for N in (8, 12, 33):
+            for tname, tv in CLOSE_RADII:
+                out.append({"alg": alg, "N": N, "t": tname, "radii_nm": tv})
     return out
 
 
